@@ -154,7 +154,7 @@ def run(tier, seed):
     cases = all_cases(tier)
     nslices = 12 if tier == "quick" else 16
     hashseeds = [0, 1] if tier == "quick" else [0, 1, 2, 3]
-    hashseeds = [(h + seed) % 1000 for h in hashseeds]
+    # the hash seeds are fixed (not derived from VERIF_SEED): what is explored must not depend on the seed
     slices = [cases[i::nslices] for i in range(nslices)]
     work = tempfile.mkdtemp(prefix="c19_", dir=os.environ.get("VERIF_SCRATCH", "/var/tmp"))
     try:
